@@ -18,7 +18,10 @@ TEXT = {
          "is covered by correspondence.", "5 C01"),
  'C02': ("Theorems about the model's interpret / applyCallee: index rules of function and argument references, closures "
          "capture the defining environment and are applied in it independently of the caller, self/outer references, the "
-         "selection / indexing rule of every callable kind. That the implementation computes what the model computes is "
+         "selection / indexing rule of every callable kind; a big-step (natural) semantics Eval of the whole evaluator with "
+         "a soundness theorem (every derivation is realised by the micro-step machine under any stack with room) and the "
+         "call-by-need rules of the core calculus — literal, function reference / definition, argument reference, closure call, β — "
+         "as derived rules. That the implementation computes what the model computes is "
          "the correspondence on generated programs.", "5 C02"),
  'C03': ("Theorems about the coroutine trees of the model: for each position the specification declares non-strict "
          "(unselected Boolean branch, operands after the deciding one of Boolean ㄱ/ㄷ, list elements, unused arguments, "
@@ -33,15 +36,18 @@ TEXT = {
  'C05': ("Invariant proofs over the model of interpret.evaluate, generic in the coroutines: tail return replaces the frame "
          "(height unchanged), closure / Boolean calls end in a delayed expression (so they are tail returns), the stack "
          "height is below MAX_STACK_SIZE (regenerated from the source) in every reachable running state, the limit report "
-         "arises only on a push. Host-stack behaviour (not representable) is exercised by a loop ladder to 10^4 / 10^6 "
+         "arises only on a push; in the big-step semantics a tail return consumes no height, so a loop of any number of tail "
+         "returns runs on the machine within the height of its deepest iteration (tail_loops_constant_stack). Host-stack behaviour (not representable) is exercised by a loop ladder to 10^4 / 10^6 "
          "iterations; two host-recursion defects are recorded findings.", "5 C05"),
  'C10': ("Theorems: ㄷㅈ raises exactly the given exception, ㅅㄷ returns the deep-forced value or calls the handler with "
          "the very exception raised, operands are forced with the propagating continuation and bind passes exceptions "
          "through, an exception without pending handler leaves the frame / reaches the top, failed cells fail identically "
-         "again. Implementation: faults planted in 52 strict positions with nested payloads, caught and uncaught.", "5 C10"),
+         "again; big-step rules: sequencing, an exception of the first part propagates through any continuation and any demand, "
+         "try runs its handler exactly on the raised exception. Implementation: faults planted in 52 strict positions with nested payloads, caught and uncaught.", "5 C10"),
  'C13': ("Theorems over the evaluator model: a demand for a completed cell is served from the cell (value or identical "
          "exception) with no new frame / start / event, frames created for completed cells return the cache, interpretation "
-         "starts only on incomplete cells, a finished frame's cell and its requestor receive the outcome. Implementation: "
+         "starts only on incomplete cells, a finished frame's cell and its whole requestor chain receive the outcome; in the "
+         "big-step semantics a completed cell (value or failure) is served in the same store and world. Implementation: "
          "observer event streams equal the model's; no expression has two evaluations with children; doubling / fan-out "
          "families are linear.", "5 C13"),
  'C19': ("Invariant proofs: depth = Σ|debug_stack|, one entry per frame; the event log is a balanced bracket word whose open "
@@ -57,7 +63,9 @@ TEXT = {
  'C07': ("Theorems: the I/O built-ins only construct action values (no world node), what executing read / print / return does "
          "to the world (one line without newline, Nil at EOF consuming nothing, string + newline), ㄱㄹ runs its first action "
          "then the continuation on its value or the handler on its exception, the do_IO loop executes the returned action "
-         "next. Monad laws and random bind trees are checked on all observables against a sequential oracle and the model; "
+         "next; big-step execution rules: a ㄱㄹ action executes its first action, applies the continuation to the produced "
+         "value, executes the returned action — the world threaded in exactly this order — or routes the raised exception to the "
+         "handler / propagates it. Monad laws and random bind trees are checked on all observables against a sequential oracle and the model; "
          "left identity for I/O payloads is a recorded finding.", "5 C07"),
  'C11': ("Theorems: ㄷ / ㄱ on integers are the exact sum / product (fold lemmas), ㄴㄴ is truncated division and ㄴㅁ the "
          "truncated remainder (proved equal to Int.tdiv / Int.tmod), n = q·d + r with |r| < |d| and r carrying the sign of n, "
